@@ -225,10 +225,11 @@ func TestC14Race(t *testing.T) {
 		iters = 400
 	}
 	var n int64
+	var all []schedx.Conc
 	for _, c := range helloConcs(env.Deep()) {
-		cc := c.conc(t, false)
-		n += cc.FreeRunConc(rep, env, nil, iters)
+		all = append(all, c.conc(t, false))
 	}
+	n = schedx.FreeRunAll(rep, env, all, false, iters)
 	rep.Add(n, 0, 0, 0)
 	rep.OutcomeN("free-running race-detector pass [iterations]", n)
 }
